@@ -883,7 +883,16 @@ where
             Ok(_) => {}
         }
 
+        // The channel for ad hoc commands is requested while the runtime is still initializing the agent.
+        // After that its attachment task also registers remotes and can be held up by a remote whose
+        // first command fills a lane buffer that the agent (waiting here) would not be reading yet.
+        let cmd_tx = context
+            .command_channel()
+            .await
+            .map_err(|_| AgentInitError::FailedToStart)?;
+
         let agent_task = AgentTask {
+            cmd_tx,
             item_model,
             lifecycle,
             route,
@@ -1047,6 +1056,7 @@ where
 }
 
 struct AgentTask<ItemModel, Lifecycle> {
+    cmd_tx: ByteWriter,
     item_model: ItemModel,
     lifecycle: Lifecycle,
     route: RouteUri,
@@ -1078,6 +1088,7 @@ where
         context: Box<dyn AgentContext + Send>, //Will be needed when downlinks are supported.
     ) -> Result<(), AgentTaskError> {
         let AgentTask {
+            cmd_tx,
             item_model,
             lifecycle,
             route,
@@ -1110,13 +1121,7 @@ where
             external_item_ids_rev.insert(*id, name);
         }
 
-        let mut cmd_writer = if let Ok(cmd_tx) = context.command_channel().await {
-            Some(CommandWriter::new(cmd_tx))
-        } else {
-            return Err(AgentTaskError::OutputFailed(std::io::Error::from(
-                std::io::ErrorKind::BrokenPipe,
-            )));
-        };
+        let mut cmd_writer = Some(CommandWriter::new(cmd_tx));
 
         let mut cmd_send_fut = pin!(OptionFuture::from(None));
 
